@@ -284,6 +284,34 @@ func evalRsim(c *core.Ctx, f []string) *core.Case {
 }
 
 // genRsim: histories with restarts in the middle.
+// rsimDiv thins the generated histories when they run as a stage of another property
+var rsimDiv = 1
+
+// RsimStage: the restart simulation as a stage of C11 (harness/main.go).  C11's statement quantifies over histories with
+// restarts and lease expiry ("… across restarts"): an address must not be handed to a second client because a renewal was
+// not written to the lease file and the restarted server let the lease expire early.  A third of the dhcp.rsim histories
+// of C18 (random histories cut by restarts; populations with stale files, capture changes, renewals and strangers asking
+// for every bound address after each restart), step by step against Model.Dhcp4Restart.stepP.
+var RsimStage = core.Runner{Gen: func(c *core.Ctx) {
+	c.Res.Rule = "dhcp.rsim (stage): op histories with reload / restart / probes on the real handler with a real lease file, every step - the restart included - against Model.Dhcp4Restart.stepP and the ledger oracle of C11"
+	for _, l := range c.CorpusLines() {
+		if strings.HasPrefix(l, "dhcp.rsim ") {
+			if cs := Eval(c, l); cs != nil {
+				cs.Class = "corpus"
+				c.Add(*cs)
+			}
+		}
+	}
+	rsimDiv = 3
+	defer func() { rsimDiv = 1 }()
+	genRsim(c)
+}, Eval: func(c *core.Ctx, line string) *core.Case {
+	if strings.HasPrefix(line, "dhcp.rsim ") {
+		return Eval(c, line)
+	}
+	return nil
+}}
+
 func genRsim(c *core.Ctx) {
 	emit := func(cfgIdx, mode int, parts []string, class string) {
 		if cs := Eval(c, fmt.Sprintf("dhcp.rsim %d:%d %s", cfgIdx, mode, strings.Join(parts, ";"))); cs != nil {
@@ -299,7 +327,7 @@ func genRsim(c *core.Ctx) {
 		return out
 	}
 	// random histories (the generator of C11) cut by restarts
-	for k := 0; k < c.Scale(60, 1200); k++ {
+	for k := 0; k < c.Scale(60, 1200)/rsimDiv; k++ {
 		cfgIdx := k % c11.NumBase
 		mode := 1 + (k/c11.NumBase)%3
 		parts := strs(c11.RandomHistory(c, cfgIdx, 6+c.Rnd.Intn(30)))
@@ -317,7 +345,7 @@ func genRsim(c *core.Ctx) {
 	// populations: clients obtain leases (some captured, some with a client identifier), some give their lease up after
 	// the last ACK (stale file), the capture state of some changes, the process restarts, every holder renews, a stranger
 	// asks for every bound address; then capture states change again, a second restart, the probes again
-	for k := 0; k < c.Scale(45, 600); k++ {
+	for k := 0; k < c.Scale(45, 600)/rsimDiv; k++ {
 		cfgIdx := k % c11.NumBase
 		mode := 1 + (k/c11.NumBase)%3
 		host := c11.Cfgs[cfgIdx].Host.AsSlice()
@@ -372,4 +400,3 @@ func genRsim(c *core.Ctx) {
 		emit(cfgIdx, mode, parts, "rsim-populated")
 	}
 }
-
